@@ -2,8 +2,10 @@
 from __future__ import annotations
 
 import contextlib
+import copy
 import io
 import math
+import pickle
 from collections import deque
 
 import numpy as np
@@ -23,18 +25,30 @@ RULE = ('integrator cases round-robin over 2 methods x 8 matrix classes (general
         'entry points on E=(x^2-1)^2+k(y-c(x^2-1))^2 with k in [0.5,4], c in [-0.6,0.6].  A case is non-trivial when '
         'hAy != 0 (integrators), the function is not constant (gradients), the initial string has its ends >= 0.01 from '
         'the minima and its top image >= 0.03 from the saddle (relaxations); distinct = distinct fingerprint of the '
-        'numerical inputs.')
+        'numerical inputs.  Round 4: integrator states also as integer arrays, float32 arrays, tuples and one-row batches; '
+        'gradient points also float32 and nested tuples; single steps also on 5- and 7-image strings handed over as '
+        'arrays, lists or tuples; every direct integrator / gradient case is followed by a call history (another call of '
+        'the same sizes, the same call again, writes into the returned arrays); path histories over 6 entry points '
+        '(ISMPath, create_path, BasePath, long style name, path from path, deepcopy/pickle) x 4 kinds (default path edited '
+        'in place, gradientkwargs=None path edited, explicitly customised path, settings edited on a path returned by '
+        'step) x 3 written shifts x 4 image counts: default path B0 (results kept) -> customised path A -> default path '
+        'B1 -> B0 and B1 re-judged against the analytic surface with the default shift, B1 relaxed with climbing.')
 ASSUMPTIONS = ['time steps satisfy h*Lambda <= 1 (Lambda = largest |Hessian eigenvalue| of the surface on [-1.3,1.3]x[-1,1]) '
                'or are the class default 0.05*min(0.2,1/N)',
                'relaxation outcome clauses are applied to runs that stopped by the displacement criterion; runs that '
                'exhaust the step budget (6 ln(2/tol)/(slowest curvature * h), ~3x what is needed) are counted as exempt and only required to end in the right basins',
                'slope clauses are applied only where every measured error exceeds 1e-11 of the step scale and the neglected '
                'higher-order terms are below 20% of the leading one at the largest step; other cases are counted as exempt',
-               'oracle shares numpy/scipy (LAPACK, expm) with the code under test']
+               'oracle shares numpy/scipy (LAPACK, expm) with the code under test',
+               'the gradient error allowed to a path is derived from the shift the harness asked for at construction (default '
+               '1e-5), never from what the path reports as its settings',
+               'not judged (not stated by the property): a path keeps the dict / coordinate array it was handed (no copy), and a path '
+               'returned by step/relax shares the gradientkwargs dict of its parent']
 
 CONFIG = {'quick': dict(shards=8, seeds=1, timeout=600), 'thorough': dict(shards=16, seeds=3, timeout=3600)}
 
 EPS = np.finfo(float).eps
+STEP_ULPS = 200.0        # one-step comparisons: 200 eps x (sum of the magnitudes of all Taylor terms), i.e. double-precision rounding of <= 4 stages in d <= 6
 BOX = ((-1.3, 1.3), (-1.0, 1.0))
 
 
@@ -86,7 +100,9 @@ def grad_tolerance(path, S, coords):
     gf = path.gradientfxn
     if getattr(gf, '_vf_exact', False):
         return 1e-12
-    shift = path.gradientkwargs.get('shift', 1e-5)
+    shift = getattr(S, '_vf_shift', None)       # what the harness asked for (never what the path says about itself)
+    if shift is None:
+        shift = path.gradientkwargs.get('shift', 1e-5)
     coords = np.asarray(coords, float)
     lead = shift ** 2 / 6.0 * np.abs(S.d3(coords)).max(initial=0.0)
     return float(lead + np.max(cd_bound(S, coords, shift)))
@@ -116,7 +132,7 @@ def install_monitors(rec, mep):
             scalar = y0.ndim == 0
             yy = y0.reshape(1) if scalar else y0
             exp = O.taylor_step(A, yy, h, degree)
-            tol = 1e-12 * O.step_scale(A, yy, h, degree)
+            tol = STEP_ULPS * EPS * O.step_scale(A, yy, h, degree)
             if scalar:
                 exp = exp[0]
             rec.close(tol, result, exp,
@@ -406,12 +422,25 @@ def run_integrators(ctx, mep, n):
         degree = 1 if method == 'euler' else 4
         if shape == 'batch':
             y = rng.normal(size=(int(rng.integers(2, 6)), d))
+        elif shape == 'batch1':                 # a batch of exactly one state
+            y = rng.normal(size=(1, d))
         elif shape == 'scalar':
             y = float(rng.normal())
+        elif shape == 'int':                    # integer-typed state (occupation numbers, lattice sites)
+            y = rng.integers(-4, 5, d)
+            if not y.any():
+                y[0] = 3
+        elif shape == 'float32':                # single-precision storage; the values are exact float32 numbers
+            y = rng.normal(size=d).astype(np.float32)
         else:
             y = rng.normal(size=d)
         rate = G.LinearRate(A, via_kwargs=(shape == 'kwargs'), scalar=(shape == 'scalar'))
-        arg = y.tolist() if shape == 'list' else (y if shape == 'scalar' else y.copy())
+        if shape == 'list':
+            arg = y.tolist()
+        elif shape == 'tuple':
+            arg = tuple(y.tolist())
+        else:
+            arg = y if shape == 'scalar' else y.copy()
         ya = np.atleast_1d(np.asarray(y, float))
         nontrivial = bool(np.abs(h * (ya @ A.T)).max() > 0)
         rec.case(('integrator', method, kind, d, h, norm, shape), nontrivial=nontrivial, fp=fingerprint(A, ya, h))
@@ -431,7 +460,7 @@ def run_integrators(ctx, mep, n):
             continue
         # direct (harness-side) comparison in addition to the call monitor
         exp = O.taylor_step(rate._vf_A, ya, h, degree)
-        tol = 1e-12 * O.step_scale(rate._vf_A, ya, h, degree)
+        tol = STEP_ULPS * EPS * O.step_scale(rate._vf_A, ya, h, degree)
         got = np.atleast_1d(np.asarray(res, float)) if shape == 'scalar' else res
         rec.close(tol, got, exp, f'{method} step equals (sum_k<={degree} (hA)^k/k!) y', f'{method}:taylor:direct', kind=kind, d=d, h=h, norm=norm)
         rec.check(rate.ncalls == (1 if method == 'euler' else 4) and rate.bad_kwargs == 0,
@@ -439,6 +468,37 @@ def run_integrators(ctx, mep, n):
                   f'{method}:rate-calls', ncalls=rate.ncalls, bad_kwargs=rate.bad_kwargs)
         rec.count(f'integrator:{method}:{shape}')
         rec.count(f'integrator:{method}:kind:{kind}')
+        if shape in ('int', 'float32'):
+            rec.check(np.asarray(res).dtype == np.float64, 'a step from an integer / single-precision state is carried out in double '
+                      'precision (the Taylor identity holds to double-precision rounding)', f'{method}:dtype:{shape}', got=str(np.asarray(res).dtype))
+        # ---- call history: the result is the caller's; later calls and edits of it touch nothing else -------------
+        if shape in ('kwargs', 'scalar') or not isinstance(res, np.ndarray):
+            continue
+        keep = res.copy()
+        arg_before = np.array(arg, copy=True)
+        if isinstance(arg, np.ndarray):
+            rec.check(not np.shares_memory(res, arg), 'the new state is a new array, not a view of the old one',
+                      f'{method}:result-aliases-input')
+        # (a) another rate law / state of the same sizes in between
+        A2 = G.gen_matrix(rng, G.MATRIX_KINDS[(i // 2 + 3) % 8], d) * norm
+        y2 = rng.normal(size=np.shape(ya) if np.ndim(y) == 1 else np.shape(y))
+        with ctx.guard(f'{method} second call', f'{method}:exception:{shape}'):
+            res2 = fn(G.LinearRate(A2), y2, h)
+            rec.check(np.array_equal(res, keep), 'the result of an earlier integrator call is not changed by a later call',
+                      f'{method}:earlier-result-overwritten', shape=shape)
+            # (b) the same call again, same argument objects: same value, whatever happened in between
+            res3 = fn(rate, arg, h)
+            rec.check(np.array_equal(np.asarray(res3), keep), 'the same step repeated with the same arguments gives the same state',
+                      f'{method}:repeat-differs', shape=shape)
+            # (c) writing into a returned state changes neither the old state nor the other returned states
+            keep2 = np.array(res2, copy=True)
+            res3[...] = -7.0
+            res[...] = 11.0
+            rec.check(np.array_equal(np.array(arg), arg_before), 'writing into the returned state leaves the input state unchanged',
+                      f'{method}:result-aliases-input', shape=shape)
+            rec.check(np.array_equal(res2, keep2), 'a returned state is not changed by writing into other returned states',
+                      f'{method}:earlier-result-overwritten', shape=shape)
+            rec.count(f'history:{method}:kept-results')
 
 
 def run_slopes(ctx, mep, n):
@@ -493,7 +553,11 @@ def run_gradients(ctx, mep, n):
         kind, shape, ndim, shiftc = G.gradient_class(i)
         F = O.SmoothFunction(rng, ndim, kind)
         p = G.gen_points(rng, shape, ndim)
-        arg = p.tolist() if shape in ('list',) or (shape == 'int' and i % 2) else p
+        if shape == 'tuple':
+            arg = tuple(tuple(r) for r in p.tolist())
+        else:
+            arg = p.tolist() if shape in ('list',) or (shape == 'int' and i % 2) else p
+        p_before = np.array(p, copy=True)
         rec.case(('gradient', kind, shape, ndim, shiftc), nontrivial=True, fp=fingerprint(p, F.a, F.Q, F.b))
         if i < 18:
             rec.sample(dict(kind=kind, shape=shape, n=ndim, shift=shiftc, points=p))
@@ -543,6 +607,32 @@ def run_gradients(ctx, mep, n):
                       ('cdiff:value:int-coord' if suffix else 'cdiff:value:direct'), max_err=float(err.max()), bound=float(bound.max()), shift=s, kind=kind, shape=shape)
         rec.count('gradient:shape:' + shape)
         rec.count('gradient:kind:' + kind)
+        if shape == 'float32':
+            rec.check(g.dtype == np.float64, 'the gradient at single-precision points is computed and returned in double precision',
+                      'cdiff:dtype:float32', got=str(g.dtype))
+        # ---- call history ------------------------------------------------------------------------------------------
+        rec.check(np.array_equal(np.asarray(arg), p_before) and np.asarray(arg).dtype == p_before.dtype,
+                  'central_difference leaves the coordinates it was given unchanged', 'cdiff:input-mutated', shape=shape)
+        if isinstance(arg, np.ndarray):
+            rec.check(not np.shares_memory(g, arg), 'the gradient is a new array, not a view of the coordinates', 'cdiff:result-aliases-input')
+        keep = g.copy()
+        F2 = O.SmoothFunction(rng, ndim, G.FUNC_KINDS[(i + 2) % 5])
+        p2 = rng.uniform(-1.5, 1.5, pf.shape)
+        with ctx.guard('central_difference second call', 'cdiff:exception:' + shape):
+            g2 = np.asarray(cd(F2, p2, s))                   # same sizes, other function, other points
+            rec.check(np.array_equal(g, keep), 'the gradient returned by an earlier call is not changed by a later call',
+                      'cdiff:earlier-result-overwritten', shape=shape)
+            g3 = np.asarray(cd(F, arg, s))
+            rec.check(np.array_equal(g3, keep), 'the same gradient call repeated with the same arguments gives the same values',
+                      'cdiff:repeat-differs', shape=shape)
+            keep2 = np.array(g2, copy=True)
+            arg_now = np.array(arg, copy=True)
+            if g3.flags.writeable:
+                g3[...] = 5.0
+            rec.check(np.array_equal(g2, keep2) and np.array_equal(np.asarray(arg), arg_now),
+                      'writing into a returned gradient changes neither another returned gradient nor the coordinates',
+                      'cdiff:earlier-result-overwritten', shape=shape)
+            rec.count('history:cdiff:kept-results')
 
 
 def run_steps(ctx, mep, n):
@@ -553,6 +643,7 @@ def run_steps(ctx, mep, n):
         n_img, init, climbc, iopt, tsc = G.step_class(i)
         k, c = G.gen_surface_params(rng)
         S = O.TwoMinimum(k, c)
+        S._vf_shift = 1e-5                      # requested: the default of central_difference
         coord = G.gen_string(rng, n_img, init, c)
         rec.case(('step', n_img, init, climbc, iopt, tsc), nontrivial=True, fp=fingerprint(coord, k, c))
         if i < 12:
@@ -560,10 +651,14 @@ def run_steps(ctx, mep, n):
         kw = {} if iopt == 'omitted' else {'integratorfxn': iopt}
         p = None
         with ctx.guard('a path can be created with default options', 'create:exception'):
-            p = mep.create_path(coord, S, **kw)
+            form = G.COORD_FORMS[(i // 2) % 4]
+            carg = coord.tolist() if form == 'list' else (tuple(tuple(r) for r in coord.tolist()) if form == 'tuple' else coord.copy())
+            p = mep.create_path(carg, S, **kw)
         if p is None:
             continue
-        j = int(rng.integers(2, n_img - 4))
+        rec.count('steps:coord-form:' + form)
+        rec.count('steps:images:%d' % n_img)
+        j = int(rng.integers(2, n_img - 4)) if n_img >= 8 else 1 + (n_img == 7) * int(rng.integers(0, 2))
         climb = {'none': None, 'int': j, 'list1': [j], 'list2': [j, j + 2], 'array1': np.array([j]), 'npint': np.int64(j)}[climbc]
         h = None if tsc == 'default' else float(rng.uniform(0.2, 1.0) / S.max_curvature(BOX, 9))
         before = len(ST.steplog)
@@ -580,6 +675,9 @@ def run_steps(ctx, mep, n):
             rec.check(len(ST.steplog) == before + 1, 'the step monitor observed the call', 'harness:step-monitor')
             check_getters(rec, q, S, 'getters')
             rec.count('steps:climb:' + climbc)
+            if isinstance(carg, np.ndarray):
+                rec.check(np.array_equal(carg, coord), 'a step leaves the coordinate array the path was built from unchanged',
+                          'step:input-mutated')
 
 
 def run_climbpoints(ctx, mep, n):
@@ -593,6 +691,7 @@ def run_climbpoints(ctx, mep, n):
         rs = (0, 2)[(i // 2) % 2]
         k, c = G.gen_surface_params(rng)
         S = O.TwoMinimum(k, c)
+        S._vf_shift = 1e-5
         t = np.linspace(0, 1, n_img)
         coord = np.stack([-1.1 + 2.2 * t + 0.05 * np.sin(np.pi * t), rng.uniform(0.5, 0.8) * np.sin(3 * np.pi * t + rng.uniform(-0.3, 0.3))], axis=1)
         rec.case(('climbpoints', n_img, cp, rs), nontrivial=True, fp=fingerprint(coord, k, c))
@@ -613,6 +712,7 @@ def run_relaxations(ctx, mep, n):
             tolc = '1e-6'
         k, c = G.gen_surface_params(rng)
         S = O.TwoMinimum(k, c)
+        S._vf_shift = {'shift1e-4': 1e-4, 'shift1e-6': 1e-6}.get(gopt, 1e-5)   # the shift that was asked for
         coord = G.gen_string(rng, n_img, init, c)
         cur = S.curvatures()
         Lam = S.max_curvature(BOX, 13)
@@ -672,58 +772,196 @@ def run_relaxations(ctx, mep, n):
         if integ is not None:
             rec.check(integ.ncalls >= info['n1'] + info['n2'], 'a user-supplied integrator performs every step of the relaxation',
                       'step:integratorfxn-dropped', integrator_calls=integ.ncalls, steps=info['n1'] + info['n2'])
-        qc = np.asarray(q.coord, float)
-        gt = grad_tolerance(q, S, qc)
-        ends = np.array([qc[0], qc[-1]])
-        dist_e = np.abs(ends - S.minima).max()
-        converged = bool(info['conv2']) if climbing else bool(info['conv1'])
-        # whatever happened, the ends must be in their own basins and not higher than they started
-        rec.check(qc[0, 0] < -0.5 and qc[-1, 0] > 0.5 and S(qc[0]) <= e0[0] + 1e-12 and S(qc[-1]) <= e0[-1] + 1e-12,
-                  'the end images stay in their basins and do not gain energy', 'relax:ends-basin', ends=ends)
-        if not converged:
-            rec.count('relax:exempt:budget-exhausted')
-            continue
-        rec.count('relax:converged')
-        rate_b = 2.5 * tol_eff + gt
-        b_end = rate_b / cur['min_lo'] + 1e-12
-        rec.check(dist_e <= b_end, 'after relax the end images are at the minima (+-1, 0) (within (2.5 tol + gradient error)/lowest curvature)',
-                  'relax:ends', dist=float(dist_e), bound=b_end, tol=tol_eff, k=k, c=c, N=n_img)
-        rec.close(2 * rate_b, S.grad(ends), np.zeros((2, 2)), 'the energy gradient vanishes at the relaxed end images', 'relax:ends-gradient')
-        en = S(qc)
-        top = int(np.argmax(en))
-        if climbing:
-            cl = info['climb']
-            if not rec.check(cl is not None and len(cl) == 1, 'exactly one image climbs on a two-minimum surface', 'relax:one-climber', climb=cl):
+        judge_relaxed(rec, S, q, info, e0, climbing, tol_eff, n_img)
+
+
+def judge_relaxed(rec, S, q, info, e0, climbing, tol_eff, n_img, K='relax'):
+    """Outcome clauses of one relaxation (q = returned path, info = what the relax monitor saw)."""
+    k, c = S.k, S.c
+    cur = S.curvatures()
+    qc = np.asarray(q.coord, float)
+    gt = grad_tolerance(q, S, qc)
+    ends = np.array([qc[0], qc[-1]])
+    dist_e = np.abs(ends - S.minima).max()
+    converged = bool(info['conv2']) if climbing else bool(info['conv1'])
+    # whatever happened, the ends must be in their own basins and not higher than they started
+    rec.check(qc[0, 0] < -0.5 and qc[-1, 0] > 0.5 and S(qc[0]) <= e0[0] + 1e-12 and S(qc[-1]) <= e0[-1] + 1e-12,
+              'the end images stay in their basins and do not gain energy', K + ':ends-basin', ends=ends)
+    if not converged:
+        rec.count(K + ':exempt:budget-exhausted')
+        return False
+    rec.count(K + ':converged')
+    rate_b = 2.5 * tol_eff + gt
+    b_end = rate_b / cur['min_lo'] + 1e-12
+    rec.check(dist_e <= b_end, 'after relax the end images are at the minima (+-1, 0) (within (2.5 tol + gradient error)/lowest curvature)',
+              K + ':ends', dist=float(dist_e), bound=b_end, tol=tol_eff, k=k, c=c, N=n_img)
+    rec.close(2 * rate_b, S.grad(ends), np.zeros((2, 2)), 'the energy gradient vanishes at the relaxed end images', K + ':ends-gradient')
+    en = S(qc)
+    top = int(np.argmax(en))
+    if climbing:
+        cl = info['climb']
+        if not rec.check(cl is not None and len(cl) == 1, 'exactly one image climbs on a two-minimum surface', K + ':one-climber', climb=cl):
+            return False
+        ci = cl[0]
+        rec.check(top == ci, 'the climbing image is the highest image of the relaxed string', K + ':top-is-climber', top=top, climber=ci)
+        b_sad = rate_b / min(cur['sad_neg'], cur['sad_pos']) + 1e-12
+        dist_s = float(np.abs(qc[ci] - S.saddle).max())
+        rec.check(dist_s <= b_sad, 'with climbing the highest image is at the saddle (0, -c)', K + ':saddle', dist=dist_s, bound=b_sad,
+                  tol=tol_eff, k=k, c=c, N=n_img, image=qc[ci])
+        gn = float(np.sqrt((S.grad(qc[ci]) ** 2).sum()))
+        rec.check(gn <= 2 * rate_b, 'the gradient vanishes at the climbing image', K + ':saddle-gradient', grad=gn, bound=2 * rate_b)
+        b_E = 0.5 * max(cur['sad_neg'], cur['sad_pos']) * 2 * b_sad ** 2 + 1e-13
+        rec.check(abs(en[ci] - 1.0) <= b_E, 'the energy of the climbing image equals the barrier 1', K + ':barrier', E=float(en[ci]), bound=b_E)
+        rec.check(abs(float(np.max(q.energy())) - 1.0) <= b_E, 'max of path.energy() equals the barrier', K + ':barrier-reported')
+        rec.count(K + ':converged:climbing')
+        if max(b_end, b_sad) <= 1e-3:
+            rec.count(K + ':converged:bounds<=1e-3')
+    else:
+        # without climbing the string still straddles the ridge: its top image is within one image spacing of the saddle along x
+        sp = float(np.diff(O.arc_coordinates(qc)).max())
+        rec.check(abs(qc[top, 0]) <= sp, 'without climbing the highest image is within one image spacing of the ridge x=0',
+                  K + ':noclimb-top', x=float(qc[top, 0]), spacing=sp)
+        rec.count(K + ':converged:noclimb')
+    # the relaxed string is evenly spaced in each segment up to the curvature of the polyline
+    seg = np.diff(O.arc_coordinates(qc))
+    th = O.turning_angles(qc)
+    parts = [(0, len(seg))] if not climbing else [(0, info['climb'][0]), (info['climb'][0], len(seg))]
+    worst = max((seg[a:b].max() / seg[a:b].min() - 1.0) for a, b in parts if b > a)
+    rec.check(worst <= 0.02 + 0.5 * float(th.max()) ** 2,
+              'images of the relaxed string are evenly spaced in arc length within each segment (up to the polyline curvature)',
+              K + ':even-spacing', worst=float(worst), max_turning_angle=float(th.max()), N=n_img)
+    check_getters(rec, q, S, 'getters:relaxed' + K[5:])
+    return True
+
+
+def build_entry(mep, entry, coord, S, alt, **kw):
+    """One default-style construction through the named entry point."""
+    if entry == 'ISMPath':
+        return mep.ISMPath(coord, S, **kw)
+    if entry == 'BasePath':
+        return mep.BasePath(coord, S, **kw)
+    if entry == 'create_path':
+        return mep.create_path(coord, S, **kw)
+    if entry == 'create_path-style-long':
+        return mep.create_path(coord, S, style='improved_string_method', **kw)
+    if entry == 'create_path-from-path':
+        return mep.create_path(mep.ISMPath(coord, S, **kw), S, **kw)
+    if entry == 'deepcopy':                      # a copy / a pickle round trip of a freshly built path
+        p0 = mep.ISMPath(coord, S, **kw)
+        return pickle.loads(pickle.dumps(p0)) if alt else copy.deepcopy(p0)
+    raise ValueError(entry)
+
+
+def judge_default_path(rec, B, S, coord, entry, when):
+    """A path built WITHOUT gradient settings differentiates with the defaults of central_difference (shift 1e-5),
+    whatever was done to other paths before or after."""
+    rec.check(B.gradientkwargs == {}, 'a path built without gradient settings has none, whatever was done to other paths',
+              f'leak:{entry}:gradientkwargs', got=dict(B.gradientkwargs), when=when)
+    mid = 0.5 * (coord[1:] + coord[:-1])
+    for pts, what in ((None, 'images'), (mid, 'given points')):
+        ref = coord if pts is None else pts
+        tol = grad_tolerance(B, S, ref)                     # from the requested (default) shift
+        g = B.grad_energy() if pts is None else B.grad_energy(pts)
+        rec.close(tol, g, S.grad(ref), f'grad_energy of a default path is the analytic gradient at the {what} to second order in the '
+                  'default shift 1e-5', f'leak:{entry}:grad', when=when)
+    rec.close(1e-13 * (1 + S.magnitude(coord)), B.energy(), S(coord), 'energy() evaluates the path\'s own energy function', f'leak:{entry}:energy')
+    rec.count(f'history:default-judged:{when}')
+
+
+def run_histories(ctx, mep, n):
+    """State kept between path instances: default path B0 (results kept) -> path A customised / edited in place ->
+    default path B1; B1 and B0 are judged against the analytic surface with the DEFAULT gradient settings."""
+    rec = ctx.rec
+    for i in ctx.cases('histories', n):
+        rng = ctx.rng
+        ST.steplog = []
+        ST.last_relax = None
+        entry, kind, s_edit, n_img = G.history_class(i)
+        ism = entry != 'BasePath'
+        if kind == 'edit-child' and not ism:
+            kind = 'edit-default'                   # BasePath cannot step: the edit goes to the path itself
+        alt = bool((i // 6) % 2)
+        surf, strings = [], []
+        for j in range(3):
+            S = O.TwoMinimum(float(rng.uniform(2.0, 4.0)), float(rng.uniform(-0.6, 0.6)))
+            S._vf_shift = 1e-5
+            surf.append(S)
+            strings.append(G.gen_string(rng, n_img, G.INITIAL[(i + j) % 4], S.c))
+        rec.case(('history', entry, kind, s_edit, n_img), nontrivial=True,
+                 fp=fingerprint(*strings, *[S.k for S in surf], *[S.c for S in surf]))
+        if i < 8:
+            rec.sample(dict(entry=entry, history=kind, shift_written=s_edit, images=n_img, k=[S.k for S in surf], c=[S.c for S in surf]))
+        kwB = {'gradientkwargs': None} if kind == 'edit-none' else {}
+        kwA = {'gradientkwargs': {'shift': s_edit}} if kind == 'custom-then-default' else dict(kwB)
+        hs = [float(rng.uniform(0.5, 1.0)) / S.max_curvature(BOX, 9) for S in surf]
+        short = dict(relaxsteps=3, climbsteps=2, tolerance=1e-12, verbose=False)
+        with ctx.guard('paths are built, used and edited one after the other', f'history:exception:{entry}'):
+            # ---- 1. default path B0; its results are kept ---------------------------------------------------------
+            B0 = build_entry(mep, entry, strings[0].copy(), surf[0], alt, **kwB)
+            S0 = B0.energyfxn                       # (the copy entry point carries a copy of the surface)
+            judge_default_path(rec, B0, S0, strings[0], entry, 'before')
+            g0 = B0.grad_energy()
+            g0_keep = np.array(g0, copy=True)
+            if ism:
+                q0 = B0.step(timestep=hs[0])
+                q0_keep = np.array(q0.coord, copy=True)
+                r0 = B0.relax(timestep=hs[0], **short)
+                r0_keep = np.array(r0.coord, copy=True)
+            # ---- 2. path A on another surface, customised --------------------------------------------------------
+            if kind == 'custom-then-default':
+                surf[1]._vf_shift = s_edit
+            A = build_entry(mep, entry, strings[1].copy(), surf[1], alt, **kwA)
+            S1 = A.energyfxn
+            S1._vf_shift = surf[1]._vf_shift
+            target = A
+            if kind == 'edit-child':
+                target = A.step(timestep=hs[1])     # settings travel with the returned path; edit them there
+            if kind != 'custom-then-default':
+                target.gradientkwargs['shift'] = s_edit
+                S1._vf_shift = s_edit
+            tc = np.asarray(target.coord, float)
+            rec.close(grad_tolerance(target, S1, tc), target.grad_energy(), S1.grad(tc),
+                      'the customised path differentiates to second order in the shift it was given', f'history:{entry}:customised-grad',
+                      shift=s_edit, kind=kind)
+            if ism:
+                check_getters(rec, target, S1, 'getters:customised')
+                target.relax(timestep=hs[1], **short)
+            rec.count('history:kind:' + kind)
+            rec.count('history:entry:' + entry)
+            # ---- 3. default path B1 on a third surface, built after the customisation -----------------------------
+            B1 = build_entry(mep, entry, strings[2].copy(), surf[2], alt, **kwB)
+            S2 = B1.energyfxn
+            judge_default_path(rec, B1, S2, strings[2], entry, 'after')
+            # ---- 4. re-judge B0: kept results untouched, same calls give the same values ---------------------------
+            judge_default_path(rec, B0, S0, strings[0], entry, 'earlier-path')
+            rec.check(np.array_equal(g0, g0_keep), 'a gradient array handed out earlier is not changed by later work on other paths',
+                      f'history:{entry}:kept-result-changed', what='grad_energy')
+            rec.check(np.array_equal(B0.grad_energy(), g0_keep), 'the same path gives the same gradient again after other paths were '
+                      'built, edited and relaxed', f'history:{entry}:repeat-differs', what='grad_energy')
+            if ism:
+                rec.check(np.array_equal(q0.coord, q0_keep) and np.array_equal(r0.coord, r0_keep),
+                          'paths returned earlier by step/relax are not changed by later work on other paths',
+                          f'history:{entry}:kept-result-changed', what='step/relax')
+                rec.check(np.array_equal(B0.step(timestep=hs[0]).coord, q0_keep), 'the same step from the same path gives the same string '
+                          'again', f'history:{entry}:repeat-differs', what='step')
+                rec.check(np.array_equal(B0.relax(timestep=hs[0], **short).coord, r0_keep), 'the same relaxation from the same path '
+                          'gives the same string again', f'history:{entry}:repeat-differs', what='relax')
+                rec.count('history:repeat-judged')
+            # ---- 5. B1 relaxes onto the minima and the saddle of ITS surface --------------------------------------
+            if not ism:
                 continue
-            ci = cl[0]
-            rec.check(top == ci, 'the climbing image is the highest image of the relaxed string', 'relax:top-is-climber', top=top, climber=ci)
-            b_sad = rate_b / min(cur['sad_neg'], cur['sad_pos']) + 1e-12
-            dist_s = float(np.abs(qc[ci] - S.saddle).max())
-            rec.check(dist_s <= b_sad, 'with climbing the highest image is at the saddle (0, -c)', 'relax:saddle', dist=dist_s, bound=b_sad,
-                      tol=tol_eff, k=k, c=c, N=n_img, image=qc[ci])
-            gn = float(np.sqrt((S.grad(qc[ci]) ** 2).sum()))
-            rec.check(gn <= 2 * rate_b, 'the gradient vanishes at the climbing image', 'relax:saddle-gradient', grad=gn, bound=2 * rate_b)
-            b_E = 0.5 * max(cur['sad_neg'], cur['sad_pos']) * 2 * b_sad ** 2 + 1e-13
-            rec.check(abs(en[ci] - 1.0) <= b_E, 'the energy of the climbing image equals the barrier 1', 'relax:barrier', E=float(en[ci]), bound=b_E)
-            rec.check(abs(float(np.max(q.energy())) - 1.0) <= b_E, 'max of path.energy() equals the barrier', 'relax:barrier-reported')
-            rec.count('relax:converged:climbing')
-            if max(b_end, b_sad) <= 1e-3:
-                rec.count('relax:converged:bounds<=1e-3')
-        else:
-            # without climbing the string still straddles the ridge: its top image is within one image spacing of the saddle along x
-            sp = float(np.diff(O.arc_coordinates(qc)).max())
-            rec.check(abs(qc[top, 0]) <= sp, 'without climbing the highest image is within one image spacing of the ridge x=0',
-                      'relax:noclimb-top', x=float(qc[top, 0]), spacing=sp)
-            rec.count('relax:converged:noclimb')
-        # the relaxed string is evenly spaced in each segment up to the curvature of the polyline
-        seg = np.diff(O.arc_coordinates(qc))
-        th = O.turning_angles(qc)
-        parts = [(0, len(seg))] if not climbing else [(0, info['climb'][0]), (info['climb'][0], len(seg))]
-        worst = max((seg[a:b].max() / seg[a:b].min() - 1.0) for a, b in parts if b > a)
-        rec.check(worst <= 0.02 + 0.5 * float(th.max()) ** 2,
-                  'images of the relaxed string are evenly spaced in arc length within each segment (up to the polyline curvature)',
-                  'relax:even-spacing', worst=float(worst), max_turning_angle=float(th.max()), N=n_img)
-        check_getters(rec, q, S, 'getters:relaxed')
+            cur = S2.curvatures()
+            tol = 1e-5
+            h = 1.0 / S2.max_curvature(BOX, 13)
+            budget = int(math.ceil(6.0 * math.log(2.0 / tol) / (min(cur['min_lo'], cur['sad_pos'], cur['sad_neg']) * h)))
+            ST.last_relax = None
+            q = B1.relax(relaxsteps=budget, climbsteps=budget, timestep=h, tolerance=tol, verbose=False)
+            info = ST.last_relax
+            if rec.check(info is not None, 'the relax monitor observed the call', 'harness:relax-monitor'):
+                rec.count('history:relax-steps', info['n1'] + info['n2'])
+                judge_relaxed(rec, S2, q, info, S2(strings[2]), True, tol, n_img, K='relax-after-edit')
+                rec.check(B1.gradientkwargs == {} and q.gradientkwargs == {}, 'relaxing a default path leaves it (and the returned path) '
+                          'without gradient settings', f'leak:{entry}:gradientkwargs', when='relaxed')
 
 
 def run(ctx):
@@ -739,7 +977,8 @@ def run(ctx):
     import time
     for name, fn, nq, nt in (('integrators', run_integrators, 768, 19200), ('slopes', run_slopes, 288, 5760),
                              ('gradients', run_gradients, 360, 7200), ('steps', run_steps, 96, 1920),
-                             ('climbpoints', run_climbpoints, 24, 240), ('relax', run_relaxations, 84, 504)):
+                             ('climbpoints', run_climbpoints, 24, 240), ('histories', run_histories, 48, 480),
+                             ('relax', run_relaxations, 84, 504)):
         t0 = time.process_time()
         fn(ctx, mep, ctx.pick(nq, nt))
         rec.count('cpu_ms:' + name, int(1000 * (time.process_time() - t0)))
@@ -773,6 +1012,18 @@ def run(ctx):
                     ('steps:climb:list2', 10), ('steps:climb:int', 10), ('steps:climb:none', 10),
                     ('integrator:euler:kwargs', 20), ('integrator:rungekutta:kwargs', 20), ('integrator:euler:list', 20),
                     ('integrator:rungekutta:batch', 20), ('gradient:shape:abn', 20), ('gradient:shape:list', 20), ('gradient:shape:int', 20),
+                    ('history:default-judged:before', 40), ('history:default-judged:after', 40), ('history:default-judged:earlier-path', 40),
+                    ('history:repeat-judged', 30), ('relax-after-edit:converged', 30), ('relax-after-edit:converged:climbing', 30),
+                    ('history:entry:ISMPath', 6), ('history:entry:create_path', 6), ('history:entry:BasePath', 6),
+                    ('history:entry:create_path-style-long', 6), ('history:entry:create_path-from-path', 6), ('history:entry:deepcopy', 6),
+                    ('history:kind:edit-default', 8), ('history:kind:edit-none', 8), ('history:kind:custom-then-default', 8),
+                    ('history:kind:edit-child', 8),
+                    ('history:euler:kept-results', 250), ('history:rungekutta:kept-results', 250), ('history:cdiff:kept-results', 200),
+                    ('integrator:euler:int', 20), ('integrator:rungekutta:int', 20), ('integrator:euler:float32', 20),
+                    ('integrator:rungekutta:float32', 20), ('integrator:euler:tuple', 20), ('integrator:rungekutta:tuple', 20),
+                    ('integrator:euler:batch1', 20), ('integrator:rungekutta:batch1', 20), ('integrator:euler:scalar', 5),
+                    ('integrator:rungekutta:scalar', 5), ('gradient:shape:float32', 20), ('gradient:shape:tuple', 20),
+                    ('steps:images:5', 5), ('steps:images:7', 5), ('steps:coord-form:list', 15), ('steps:coord-form:tuple', 15),
                     ('reach:ISMPath.step', 8), ('reach:ISMPath.step:climb-branch', 8), ('reach:ISMPath.relax', 8),
                     ('reach:ISMPath.relax:break', 8), ('reach:ISMPath.relax:climbpoints-cut', 1),
                     ('reach:BasePath.gradientkwargs-None', 1), ('reach:BasePath.gradientkwargs-dict', 1),
